@@ -244,6 +244,7 @@ type valPlan struct {
 	note     string
 	// straddles: an attestation whose source and target checkpoints lie in different forks
 	straddles bool
+	objDesc   string // own domain / epoch and the other epochs the object carries
 }
 
 type published struct {
@@ -696,6 +697,10 @@ func (b *builder) plan(vi int, k kind, g *genCtx, class string, ids []int) (*val
 	if err != nil {
 		return nil, err
 	}
+	p.objDesc = fmt.Sprintf("%s %s: own domain %s, own epoch %d", baseIn.Type, baseIn.Version, b.ch.ownSpec(baseIn.Domain, baseIn.Epoch), baseIn.Epoch)
+	for _, a := range baseIn.alt {
+		p.objDesc += fmt.Sprintf(", %s %d (fork version %x)", a.why, a.epoch, b.ch.forkVersion(a.epoch))
+	}
 	if baseIn.Domain == domAttester && len(baseIn.alt) > 0 {
 		p.straddles = b.ch.forkVersion(baseIn.alt[0].epoch) != b.ch.forkVersion(baseIn.Epoch)
 		b.c.R.Count("attestation_sets", 1)
@@ -1143,7 +1148,7 @@ func runCase(ctx context.Context, c *kit.Case, ch *chain, mon *monitor, env *clu
 			w := map[string]any{"kind": k.name, "n": env.n, "t": env.t, "class": class, "validators_in_call": len(plans), "corrupted_validator_position": victim, "aggregate_error": fmt.Sprint(err)}
 			var vs []map[string]any
 			for _, p := range plans {
-				vs = append(vs, map[string]any{"validator": p.vi, "group_pubkey": string(p.pub), "class": p.class, "note": p.note, "partials": p.meta})
+				vs = append(vs, map[string]any{"validator": p.vi, "group_pubkey": string(p.pub), "class": p.class, "note": p.note, "object": p.objDesc, "partials": p.meta})
 			}
 			w["validators"] = vs
 			if fplan != nil {
